@@ -8,7 +8,7 @@ Open Scope N_scope.
 Inductive smode := MTail | MSealed (info : seginfo) | MNone.
 
 Record sst := { s_info : seginfo; s_file : bytes; s_w : wstate; s_mode : smode;
-                s_pre : bytes }.
+                s_pre : bytes; s_fault : wfault (* I/O error armed for the next append / force-seal *) }.
 
 Definition s_sealedk : str := [115;101;97;108;101;100].          (* sealed *)
 Definition s_toobig : str := [116;111;111;98;105;103].           (* toobig *)
@@ -97,10 +97,10 @@ Fixpoint run_ops (fuel : nat) (st : sst) (ts : list str) (acc : list str) : list
                     | Some (es, r2) =>
                         match s_mode st with
                         | MTail =>
-                            let '(res, w', acts) := append (s_w st) es FNone in
+                            let '(res, w', acts) := append (s_w st) es (s_fault st) in
                             let f' := apply_wactions (s_file st) acts in
                             run_ops fuel' {| s_info := s_info st; s_file := f'; s_w := w';
-                                             s_mode := MTail; s_pre := pre_of st acts |} r2
+                                             s_mode := MTail; s_pre := pre_of st acts; s_fault := FNone |} r2
                                     (show_wres res :: acc)
                         | _ => run_ops fuel' st r2 (s_bad :: acc)
                         end
@@ -113,14 +113,14 @@ Fixpoint run_ops (fuel : nat) (st : sst) (ts : list str) (acc : list str) : list
           else if chr 83 op then (* S force seal *)
             match s_mode st with
             | MTail =>
-                let '(res, w', acts) := force_seal (s_w st) FNone in
+                let '(res, w', acts) := force_seal (s_w st) (s_fault st) in
                 let f' := apply_wactions (s_file st) acts in
                 let o := match res with
                          | WOk => s_ok ++ colon :: N_to_hex (w_index_start w')
                          | _ => show_wres res
                          end in
                 run_ops fuel' {| s_info := s_info st; s_file := f'; s_w := w';
-                                 s_mode := MTail; s_pre := pre_of st acts |} r (o :: acc)
+                                 s_mode := MTail; s_pre := pre_of st acts; s_fault := FNone |} r (o :: acc)
             | _ => run_ops fuel' st r (s_bad :: acc)
             end
           else if chr 81 op then (* Q sealed? *)
@@ -147,10 +147,10 @@ Fixpoint run_ops (fuel : nat) (st : sst) (ts : list str) (acc : list str) : list
             match recover_tail (s_info st) (s_file st) with
             | Some (w', acts) =>
                 run_ops fuel' {| s_info := s_info st; s_file := apply_wactions (s_file st) acts;
-                                 s_w := w'; s_mode := MTail; s_pre := pre_of st acts |} r (s_ok :: acc)
+                                 s_w := w'; s_mode := MTail; s_pre := pre_of st acts; s_fault := FNone |} r (s_ok :: acc)
             | None =>
                 run_ops fuel' {| s_info := s_info st; s_file := s_file st; s_w := s_w st;
-                                 s_mode := MNone; s_pre := s_pre st |} r (s_corrupt :: acc)
+                                 s_mode := MNone; s_pre := s_pre st; s_fault := FNone |} r (s_corrupt :: acc)
             end
           else if chr 67 op then (* C mask : crash image of the last write, then recover *)
             match r with
@@ -160,7 +160,7 @@ Fixpoint run_ops (fuel : nat) (st : sst) (ts : list str) (acc : list str) : list
                     let n := Nat.max (length (s_pre st)) (length (s_file st)) in
                     let img := crash_mix (pad_to n (s_pre st)) (pad_to n (s_file st)) m (S (n / 8)) in
                     run_ops fuel' {| s_info := s_info st; s_file := img; s_w := s_w st;
-                                     s_mode := MNone; s_pre := img |} (cons [82] r1) acc
+                                     s_mode := MNone; s_pre := img; s_fault := FNone |} (cons [82] r1) acc
                 | None => rev_append (s_bad :: acc) []
                 end
             | [] => rev_append (s_bad :: acc) []
@@ -176,10 +176,10 @@ Fixpoint run_ops (fuel : nat) (st : sst) (ts : list str) (acc : list str) : list
                                    si_size_limit := si_size_limit (s_info st) |} in
                     if open_sealed info (s_file st) then
                       run_ops fuel' {| s_info := s_info st; s_file := s_file st; s_w := s_w st;
-                                       s_mode := MSealed info; s_pre := s_pre st |} r1 (s_ok :: acc)
+                                       s_mode := MSealed info; s_pre := s_pre st; s_fault := FNone |} r1 (s_ok :: acc)
                     else
                       run_ops fuel' {| s_info := s_info st; s_file := s_file st; s_w := s_w st;
-                                       s_mode := MNone; s_pre := s_pre st |} r1 (s_corrupt :: acc)
+                                       s_mode := MNone; s_pre := s_pre st; s_fault := FNone |} r1 (s_corrupt :: acc)
                 | _, _ => rev_append (s_bad :: acc) []
                 end
             | _ => rev_append (s_bad :: acc) []
@@ -190,7 +190,7 @@ Fixpoint run_ops (fuel : nat) (st : sst) (ts : list str) (acc : list str) : list
                 match hex_to_N o, hex_to_bytes h with
                 | Some o, Some h =>
                     run_ops fuel' {| s_info := s_info st; s_file := overwrite (s_file st) (N.to_nat o) h;
-                                     s_w := s_w st; s_mode := s_mode st; s_pre := s_pre st |} r1 acc
+                                     s_w := s_w st; s_mode := s_mode st; s_pre := s_pre st; s_fault := FNone |} r1 acc
                 | _, _ => rev_append (s_bad :: acc) []
                 end
             | _ => rev_append (s_bad :: acc) []
@@ -201,10 +201,18 @@ Fixpoint run_ops (fuel : nat) (st : sst) (ts : list str) (acc : list str) : list
                 match hex_to_N n with
                 | Some n =>
                     run_ops fuel' {| s_info := s_info st; s_file := firstn (N.to_nat n) (s_file st);
-                                     s_w := s_w st; s_mode := s_mode st; s_pre := s_pre st |} r1 acc
+                                     s_w := s_w st; s_mode := s_mode st; s_pre := s_pre st; s_fault := FNone |} r1 acc
                 | None => rev_append (s_bad :: acc) []
                 end
             | _ => rev_append (s_bad :: acc) []
+            end
+          else if chr 69 op then (* E w|s : the next append / force-seal fails at its write / fsync *)
+            match r with
+            | k :: r1 =>
+                let f := if chr 119 k then FWrite else if chr 115 k then FSync else FNone in
+                run_ops fuel' {| s_info := s_info st; s_file := s_file st; s_w := s_w st;
+                                 s_mode := s_mode st; s_pre := s_pre st; s_fault := f |} r1 acc
+            | [] => rev_append (s_bad :: acc) []
             end
           else if chr 70 op then (* F : file content, trailing zeros stripped *)
             run_ops fuel' st r (bytes_to_hex (strip_trailing_zeros (s_file st)) :: acc)
@@ -232,7 +240,7 @@ Definition run_seg (ts : list str) : str :=
                          si_index_start := 0; si_sealed := false; si_size_limit := l |} in
           let f0 := zeros (N.to_nat fsz) in
           join (run_ops (S (length ops)) {| s_info := info; s_file := f0; s_w := init_empty info;
-                                            s_mode := MTail; s_pre := f0 |} ops [])
+                                            s_mode := MTail; s_pre := f0; s_fault := FNone |} ops [])
       | _, _, _, _, _ => s_bad
       end
   | _ => s_bad
